@@ -165,6 +165,32 @@ pub fn run(ctx: &Ctx) -> i32 {
             }
         }
     }
+    // literal backslashes followed by text that looks like an escape once a quantifier is written behind it
+    // (`\\uu` becomes `\\\\u{2}` with repetition conversion: a quantified letter, not an escape)
+    {
+        let looks = ["\\uu", "\\uuu", "x\\uuy", "\\uu\u{e9}", "\u{e9}\\uuuu", "\\\\uu", "\\UU", "\\xx", "\\u{e9}", "\\u{2}", "\\uu{2}", "\\\u{1f4a9}uu", "u\\uu\\uu"];
+        for (i, t) in looks.iter().enumerate() {
+            for e in esc_modes {
+                for o in [0, REP, REP | VERB, REP | CAP, REP | CI] {
+                    cases.extend(mk_case(vec![t.to_string()], Settings::new(e | o)));
+                    cases.extend(mk_case(vec![t.to_string(), looks[(i + 1) % looks.len()].to_string(), "z".to_string()], Settings::new(e | o)));
+                }
+            }
+        }
+    }
+    // patterns of tens of kilobytes (block-wise rewriting would show): many short non-ASCII words, escaping on
+    {
+        let sizes: &[usize] = if ctx.thorough { &[300, 700, 1500, 2500, 4000, 6000, 9000] } else { &[700, 2200, 4000] };
+        let pool: Vec<char> = (0x4e00u32..0x4e40).chain(0x1f600..0x1f620).chain(0xe0..0xf0).filter_map(char::from_u32).collect();
+        for (k, n) in sizes.iter().enumerate() {
+            let mut rng = Rng::new(seed, 0x141_0000 + k as u64);
+            let words: Vec<String> = (0..*n).map(|_| (0..3 + rng.below(4)).map(|_| *rng.pick(&pool)).collect()).collect();
+            cases.extend(mk_case(words.clone(), Settings::new(ESC)));
+            if ctx.thorough {
+                cases.extend(mk_case(words, Settings::new(ESC | SURR)));
+            }
+        }
+    }
     // every single setter and every pair on a discriminating input
     let disc: Vec<String> = ["aaa bb 12 É💩.", "aaa bb", "a", "xyxyxy", "AAA BB"].iter().map(|s| s.to_string()).collect();
     let flags: Vec<u32> = FLAG_NAMES.iter().map(|(_, f)| *f).filter(|f| *f != COLOR).collect();
